@@ -158,6 +158,7 @@ type client struct {
 	cseq   int
 	cancel context.CancelFunc // http-flv
 	stopped  bool
+	nonce    []byte
 	attached bool
 }
 
@@ -237,7 +238,7 @@ func (c *client) request(text string) (string, bool) {
 	c.cseq++
 	text = strings.Replace(text, "CSeq: #", "CSeq: "+strconv.Itoa(c.cseq), 1)
 	switch c.kind {
-	case 0, 1:
+	case 0, 1, 6:
 		if _, err := c.conn.Write([]byte(text)); err != nil {
 			return "", false
 		}
@@ -358,6 +359,67 @@ func (c *client) attach(stream *media.Stream) error {
 			reqs = append(reqs, c.setupText(v == 0, "RTP/AVP;unicast;client_port="+strings.Join(ports, "-")))
 		}
 		reqs = append(reqs, play)
+	case 6:
+		// multicast: the SETUP answer names the group and the ports of the stream's multicast proxy
+		nc, err := net.Dial("tcp", rtspL.Addr().String())
+		if err != nil {
+			return err
+		}
+		c.conn = nc
+		c.pumpTCP()
+		if resp, ok := c.request(describe); !ok200(resp, ok) {
+			return fmt.Errorf("multicast: DESCRIBE refused")
+		}
+		for _, v := range []int{0, 2} {
+			if c.chmap[v] < 0 {
+				continue
+			}
+			resp, ok := c.request(c.setupText(v == 0, "RTP/AVP;multicast"))
+			if !ok200(resp, ok) {
+				return fmt.Errorf("multicast: SETUP refused: %.80q", resp)
+			}
+			dest, ports := "", ""
+			for _, f := range strings.FieldsFunc(resp, func(r rune) bool { return r == ';' || r == '\r' || r == '\n' }) {
+				f = strings.TrimSpace(f)
+				if strings.HasPrefix(f, "destination=") {
+					dest = f[12:]
+				} else if strings.HasPrefix(f, "port=") {
+					ports = f[5:]
+				}
+			}
+			pp := strings.Split(ports, "-")
+			for k := v; k < v+2; k++ {
+				if c.chmap[k] < 0 || k-v >= len(pp) {
+					continue
+				}
+				port, _ := strconv.Atoi(pp[k-v])
+				u, err := net.ListenMulticastUDP("udp4", nil, &net.UDPAddr{IP: net.ParseIP(dest), Port: port})
+				if err != nil {
+					return fmt.Errorf("multicast: join %s:%d: %v", dest, port, err)
+				}
+				c.udp[k] = u
+				go func(k int, u *net.UDPConn) {
+					buf := make([]byte, 65536)
+					for {
+						n, _, err := u.ReadFrom(buf)
+						if err != nil {
+							return
+						}
+						// other processes on this machine use the same groups and ports: only datagrams
+						// carrying this case's SSRC are ours
+						d := buf[:n]
+						off := 8
+						if k == 1 || k == 3 {
+							off = 4
+						}
+						if n >= off+4 && bytes.Equal(d[off:off+4], c.nonce) {
+							c.add(int64(k), 0, d)
+						}
+					}
+				}(k, u)
+			}
+		}
+		reqs = append(reqs, play)
 	case 2:
 		ws, err := dialWS("/streams"+streamPath, "rtsp")
 		if err != nil {
@@ -371,8 +433,12 @@ func (c *client) attach(stream *media.Stream) error {
 				if err != nil {
 					return
 				}
-				if len(m) > 0 && m[0] != '$' {
-					c.resps <- string(m)
+				if len(m) > 0 && m[0] != '$' && strings.HasPrefix(string(m), "RTSP/") {
+					select {
+					case c.resps <- string(m):
+					default:
+						c.add(-2, 0, m) // a response nobody asked for
+					}
 					continue
 				}
 				c.oneFrame(m)
@@ -514,7 +580,7 @@ func (c *client) stop(mode int64) {
 	c.stopped = true
 	teardown := fmt.Sprintf("TEARDOWN rtsp://127.0.0.1:554%s RTSP/1.0\r\nCSeq: #\r\n\r\n", streamPath)
 	switch c.kind {
-	case 0, 1:
+	case 0, 1, 6:
 		if mode == 0 {
 			c.request(teardown)
 		} else {
@@ -553,6 +619,31 @@ func (c *client) cleanup() {
 	}
 }
 
+func publishViaSession() (net.Conn, error) {
+	nc, err := net.Dial("tcp", rtspL.Addr().String())
+	if err != nil {
+		return nil, err
+	}
+	br := bufio.NewReader(nc)
+	u := "rtsp://127.0.0.1:554" + streamPath
+	for _, r := range []string{
+		fmt.Sprintf("ANNOUNCE %s RTSP/1.0\r\nCSeq: 1\r\nContent-Type: application/sdp\r\nContent-Length: %d\r\n\r\n%s", u, len(sdpText), sdpText),
+		fmt.Sprintf("SETUP %s/streamid=0 RTSP/1.0\r\nCSeq: 2\r\nTransport: RTP/AVP/TCP;unicast;interleaved=0-1;mode=record\r\n\r\n", u),
+		fmt.Sprintf("RECORD %s RTSP/1.0\r\nCSeq: 3\r\n\r\n", u),
+	} {
+		if _, err := nc.Write([]byte(r)); err != nil {
+			return nc, err
+		}
+		nc.SetReadDeadline(time.Now().Add(5 * time.Second))
+		resp, err := readRTSPResponse(br)
+		if err != nil || !strings.HasPrefix(resp, "RTSP/1.0 200") {
+			return nc, fmt.Errorf("publisher refused: %.60q", resp)
+		}
+	}
+	nc.SetReadDeadline(time.Time{})
+	return nc, nil
+}
+
 // ---------------------------------------------------------------- one case
 // case = (refs packets clients events how)
 //   packets = ((channel data) ..)   clients = ((kind (m0 m1 m2 m3) (delivered-index ..)) ..)
@@ -564,11 +655,36 @@ func Run(c Val) Val {
 	refs, pkts, cls, evs, how := c.At(0).Bool(), c.At(1).List(), c.At(2).List(), c.At(3).List(), c.At(4).Int()
 	media.UnregistAll()
 	settle()
-	stream := media.NewStream(streamPath, sdpText)
-	media.Regist(stream)
+	var stream *media.Stream
+	needMcast := false
+	for _, cv := range cls {
+		if cv.At(0).Int() == 6 {
+			needMcast = true
+		}
+	}
+	if needMcast {
+		// only a stream published by a RECORD session has a multicast proxy
+		pub, err := publishViaSession()
+		if pub != nil {
+			defer pub.Close()
+		}
+		if err != nil {
+			return L(S("!setup"), S(err.Error()))
+		}
+		stream = media.Get(streamPath)
+	} else {
+		stream = media.NewStream(streamPath, sdpText)
+		media.Regist(stream)
+	}
+	if stream == nil {
+		return L(S("!setup"), S("no stream"))
+	}
 	clients := make([]*client, len(cls))
 	for i, cv := range cls {
 		cl := &client{kind: cv.At(0).Int()}
+		if len(pkts) > 0 && len(pkts[0].At(1).Bytes()) >= 12 {
+			cl.nonce = pkts[0].At(1).Bytes()[8:12]
+		}
 		for k := 0; k < 4; k++ {
 			cl.chmap[k] = cv.At(1).At(k).Int()
 		}
@@ -710,4 +826,3 @@ func Run(c Val) Val {
 	return L(L(out...), L(snaps...), S(note))
 }
 
-var _ = bytes.Equal
